@@ -129,7 +129,11 @@ func (fc *fnCtx) callFunction(st *State, x *ssa.Call, callee *ssa.Function, args
 		return []Val{{T: fmt.Sprintf("(- (to_real (to_int (- %s))))", args[0].T), Ty: args[0].Ty}}
 	}
 	c := eng.contractFor(callee)
-	ordKey := fc.callOrdinal(callee)
+	var ins ssa.Instruction
+	if x != nil {
+		ins = x
+	}
+	ordKey := fc.callOrdinal(callee, ins)
 	// caller-side ghost assertions `call f#k assert`
 	fc.callSiteAsserts(st, callee, ordKey, args)
 	if fc.specMode || c != nil && c.Inline || (c == nil && eng.autoInline(callee)) {
@@ -152,21 +156,77 @@ func (fc *fnCtx) callFunction(st *State, x *ssa.Call, callee *ssa.Function, args
 	return fc.applyContract(st, callee, c, args, ordKey, pos)
 }
 
-func (fc *fnCtx) callOrdinal(callee *ssa.Function) string {
-	t := fc.top
-	name := callee.Name()
-	t.callOrd[name]++
-	return fmt.Sprintf("%s@%d", name, t.callOrd[name])
+// siteOrdinals numbers the call sites of each callee name of a function in source order.
+func siteOrdinals(fn *ssa.Function) map[ssa.Instruction]int {
+	type site struct {
+		ins  ssa.Instruction
+		pos  token.Pos
+		b, i int
+	}
+	byName := map[string][]site{}
+	for _, b := range fn.Blocks {
+		for i, ins := range b.Instrs {
+			call, ok := ins.(ssa.CallInstruction)
+			if !ok {
+				continue
+			}
+			c := call.Common()
+			var name string
+			if c.IsInvoke() {
+				name = c.Method.Name()
+			} else if callee := c.StaticCallee(); callee != nil {
+				name = callee.Name()
+			} else {
+				continue
+			}
+			byName[name] = append(byName[name], site{ins, ins.Pos(), b.Index, i})
+		}
+	}
+	out := map[ssa.Instruction]int{}
+	for _, sites := range byName {
+		sort.SliceStable(sites, func(a, b int) bool {
+			if sites[a].pos != sites[b].pos && sites[a].pos.IsValid() && sites[b].pos.IsValid() {
+				return sites[a].pos < sites[b].pos
+			}
+			if sites[a].b != sites[b].b {
+				return sites[a].b < sites[b].b
+			}
+			return sites[a].i < sites[b].i
+		})
+		for k, s := range sites {
+			out[s.ins] = k + 1
+		}
+	}
+	return out
 }
 
-func (fc *fnCtx) invokeSiteAsserts(st *State, name string, recv Val, args []Val) {
+func (fc *fnCtx) siteOrd(ins ssa.Instruction, name string) int {
+	t := fc.top
+	if ins != nil && fc == t || (ins != nil && !fc.inline) {
+		if t.callOrds == nil {
+			t.callOrds = siteOrdinals(t.fn)
+		}
+		if k, ok := t.callOrds[ins]; ok {
+			t.callOrd[name] = k
+			return k
+		}
+	}
+	t.callOrd[name]++
+	return t.callOrd[name]
+}
+
+func (fc *fnCtx) callOrdinal(callee *ssa.Function, ins ssa.Instruction) string {
+	name := callee.Name()
+	return fmt.Sprintf("%s@%d", name, fc.siteOrd(ins, name))
+}
+
+func (fc *fnCtx) invokeSiteAsserts(st *State, x *ssa.Call, name string, recv Val, args []Val) {
 	if fc.inline || fc.specMode || fc.contract == nil {
 		return
 	}
-	t := fc.top
-	t.callOrd[name]++
+	k := fc.siteOrd(x, name)
 	all := append([]Val{recv}, args...)
-	fc.siteAsserts(st, name, fmt.Sprintf("%s@%d", name, t.callOrd[name]), all)
+	fc.siteAsserts(st, name, fmt.Sprintf("%s@%d", name, k), all)
 }
 
 func (fc *fnCtx) callSiteAsserts(st *State, callee *ssa.Function, ordKey string, args []Val) {
@@ -366,8 +426,27 @@ func (fc *fnCtx) applyContract(st *State, callee *ssa.Function, c *Contract, arg
 	// 3. results + postconditions
 	sig := callee.Signature
 	var results []Val
-	for i := 0; i < sig.Results().Len(); i++ {
-		results = append(results, fc.freshVal(st, callee.Name()+".r", sig.Results().At(i).Type()))
+	if c.Pure && c.Extern && sig.Results().Len() == 1 && allScalar(args) {
+		// a pure function of scalar arguments: the same uninterpreted application as in specifications
+		name := "spec." + sanitize(callee.String())
+		var srts, ts []string
+		for _, a := range args {
+			srts = append(srts, fc.S().SortOf(a.Ty))
+			ts = append(ts, a.T)
+		}
+		rt := sig.Results().At(0).Type()
+		fc.S().UFun(name, srts, fc.S().SortOf(rt))
+		term := name
+		if len(ts) > 0 {
+			term = app(name, ts...)
+		}
+		r := Val{T: fc.defs.Define(callee.Name()+".r", fc.S().SortOf(rt), term), Ty: rt}
+		fc.assume(st, fc.S().RangeFact(rt, r.T, 1))
+		results = []Val{r}
+	} else {
+		for i := 0; i < sig.Results().Len(); i++ {
+			results = append(results, fc.freshVal(st, callee.Name()+".r", sig.Results().At(i).Type()))
+		}
 	}
 	penv := fc.contractEnv(st, pre, callee, args, results)
 	for _, e := range c.Ensures {
@@ -383,6 +462,18 @@ func (fc *fnCtx) applyContract(st *State, callee *ssa.Function, c *Contract, arg
 		fc.assume(st, inv)
 	}
 	return results
+}
+
+func allScalar(args []Val) bool {
+	for _, a := range args {
+		if a.Ty == nil {
+			return false
+		}
+		if _, ok := a.Ty.Underlying().(*types.Basic); !ok {
+			return false
+		}
+	}
+	return true
 }
 
 // typeInvFacts evaluates the type invariants of pointer/value arguments.
@@ -832,7 +923,7 @@ func (fc *fnCtx) execAppend(st *State, x *ssa.Call) {
 
 func (fc *fnCtx) execInvoke(st *State, x *ssa.Call, recv Val, args []Val) {
 	m := x.Call.Method
-	fc.invokeSiteAsserts(st, m.Name(), recv, args)
+	fc.invokeSiteAsserts(st, x, m.Name(), recv, args)
 	// assumed contract on the interface method, keyed "(pkg.Iface).Method"
 	key := "(" + typeKey(x.Call.Value.Type()) + ")." + m.Name()
 	if c := fc.eng.ifaceContract(x.Call.Value.Type(), m.Name()); c != nil {
@@ -1038,7 +1129,10 @@ func (fc *fnCtx) execNext(st *State, x *ssa.Next) {
 		k := fc.freshVal(st, x.Name()+".i", types.Typ[types.Int])
 		v := fc.freshVal(st, x.Name()+".r", types.Typ[types.Int32])
 		if len(it.Tup) == 1 {
-			fc.assume(st, implies(ok, fmt.Sprintf("(and (<= 0 %s) (< %s (s.len %s)) (>= %s 0))", k.T, k.T, it.Tup[0].T, v.T)))
+			str := it.Tup[0].T
+			b0 := fc.strAt(str, k.T)
+			// UTF-8 decoding: an ASCII byte is its own code point, anything else decodes to >= 0x80
+			fc.assume(st, implies(ok, fmt.Sprintf("(and (<= 0 %s) (< %s (s.len %s)) (>= %s 0) (ite (< %s 128) (= %s %s) (>= %s 128)))", k.T, k.T, str, v.T, b0, v.T, b0, v.T)))
 		}
 		fc.vals[x] = Val{Ty: x.Type(), Tup: []Val{{T: ok, Ty: boolT}, k, v}}
 		return
